@@ -36,9 +36,21 @@ def in_quote(d, pre="> "):
     return "\n".join(pre + l for l in d.split("\n"))
 
 
-def in_item(d):
-    # continuation blocks of a list item: every line indented by the marker width
-    return "- x\n\n" + "\n".join(("  " + l) if l else l for l in d.split("\n"))
+def in_item(d, rng=None):
+    # continuation blocks of a list item: every line indented by the marker width; a blank line may be spelled with
+    # blanks narrower than that width (seed C11-7)
+    m = rng.choice(["- ", "- ", "1.  ", "10. ", "   * ", "-    "[:rng.choice([2, 3, 4, 5])]]) if rng else "- "
+    w = len(m)
+
+    def blank():
+        return " " * rng.randrange(0, w) if rng and rng.random() < 0.6 else ""
+    return m + "x\n\n" + "\n".join((" " * w + l) if l else blank() for l in d.split("\n"))
+
+
+# block rules in another registration order (none of the payload contexts depends on it: every rule has its own
+# indentation guard -- seed C11-8 removes the fence rule's)
+CFGS = ["CsW", "CsW", "CsW", "nebmliatfcqhurHLpsW", "nebmliatHrfqhucLpsW", "nebmliatqfhucrHLpsW"]
+LOOKALIKE = ["~~~", "~~~~ x", "```", "``` y", "- l", "# h", "1. o", "---", "<div>", "[r]: /u", "@@@", "***", "+ p", "    z", "=", "==="]
 
 
 def cases(rng, tier, Case):
@@ -47,8 +59,9 @@ def cases(rng, tier, Case):
     for _ in range(n):
         ctx = rng.choice(["top", "top", "quote", "item"])
         qp = rng.choice(QP)
-        wrapf = {"top": lambda d: d, "quote": (lambda d: in_quote(d, qp)), "item": in_item}[ctx]
-        kind = rng.choice(["fence", "fence", "indent", "span"])
+        wrapf = {"top": lambda d: d, "quote": (lambda d: in_quote(d, qp)), "item": (lambda d: in_item(d, rng))}[ctx]
+        kind = rng.choice(["fence", "fence", "indent", "span", "spanlazy"])
+        cfg = rng.choice(CFGS)
         if kind == "fence":
             t = payload(rng, True)
             m = rng.choice("`~")
@@ -58,7 +71,7 @@ def cases(rng, tier, Case):
             want = t + "\n"
             if ctx != "top" and any(l.startswith("\t") is False and "\t" in l[:1] for l in t.split("\n")):
                 continue
-            res.append(Case("parse CsW 100 TR %s" % hx(wrapf(d)), "fence-" + ctx, {"kind": "CodeFence", "want": hx(want), "src": hx(t)}))
+            res.append(Case("parse %s 100 TR %s" % (cfg, hx(wrapf(d))), "fence-" + ctx, {"kind": "CodeFence", "want": hx(want), "src": hx(t)}))
         elif kind == "indent":
             t = payload(rng, True)
             ls = t.split("\n")
@@ -69,7 +82,27 @@ def cases(rng, tier, Case):
             if any((not l.strip(" \t")) and l for l in ls):
                 continue
             want = t + "\n"
-            res.append(Case("parse CsW 100 TR %s" % hx(wrapf(d)), "indent-" + ctx, {"kind": "CodeBlock", "want": hx(want), "src": hx(t)}))
+            res.append(Case("parse %s 100 TR %s" % (cfg, hx(wrapf(d))), "indent-" + ctx, {"kind": "CodeBlock", "want": hx(want), "src": hx(t)}))
+        elif kind == "spanlazy":
+            # a span that runs over paragraph continuation lines indented by four or more columns whose text looks like a
+            # block start (it is not one: too far indented); inside a quote the continuation lines are lazy (no marker)
+            pieces = [rng.choice(["a", "b c", "*e*", "&amp;"])] + [rng.choice(LOOKALIKE) for _ in range(rng.choice([1, 1, 2, 3]))]
+            k = max(max_run(x, "`") for x in pieces) + 1
+            ind = [" " * (rng.choice([4, 4, 5, 7]) + (2 if ctx == "item" else 0)) for _ in pieces]
+            first = "`" * k + " " + pieces[0]
+            rest = [ind[i] + pieces[i] for i in range(1, len(pieces))]
+            rest[-1] += " " + "`" * k
+            if ctx == "quote":
+                if qp.count(">") > 1:
+                    qp = "> "          # a lazy line indented by 4+ ends a NESTED quote in this implementation (model agrees)
+                d = qp + "q " + first + "\n" + "\n".join(rest)
+            elif ctx == "item":
+                d = "- q " + first + "\n" + "\n".join(rest)
+            else:
+                d = "q " + first + "\n" + "\n".join(rest)
+            # the payload is everything between the padding spaces, indentation of the continuation lines included
+            want = " ".join([pieces[0]] + [ind[i] + pieces[i] for i in range(1, len(pieces))])
+            res.append(Case("parse %s 100 TR %s" % (cfg, hx(d)), "spanlazy-" + ctx, {"kind": "CodeInline", "want": hx(want), "src": hx(want)}))
         else:
             t = payload(rng, rng.random() < 0.3)
             if not t or not t.strip(" \n") or "\n\n" in t or t.startswith("\n") or t.endswith("\n"):
@@ -84,7 +117,7 @@ def cases(rng, tier, Case):
             pre = rng.choice(["a ", "a ", "a ", "\\`", "x \\`", "q " + "`" * k + " w\n\na ", "o" + "`" * k + "c " + "`" * (k + 1) + "\n\nz "])
             d = pre + "`" * k + " " + t + " " + "`" * k
             want = t.replace("\n", " ")
-            res.append(Case("parse CsW 100 TR %s" % hx(wrapf(d)), "span-" + ctx, {"kind": "CodeInline", "want": hx(want), "src": hx(t)}))
+            res.append(Case("parse %s 100 TR %s" % (cfg, hx(wrapf(d))), "span-" + ctx, {"kind": "CodeInline", "want": hx(want), "src": hx(t)}))
     # unit cases for the tab-stop arithmetic
     for _ in range(300 if tier == "quick" else 20000):
         ws = "".join(rng.choice([" ", " ", "\t", "\t", ">", "é"]) for _ in range(rng.choice([0, 1, 2, 3, 5, 8])))
@@ -105,6 +138,15 @@ def oracle(case, io, mo):
     want = unhx(p["want"])
     html = unhx(f["html"])
     esc = want.replace(b"&", b"&amp;").replace(b"<", b"&lt;").replace(b">", b"&gt;").replace(b'"', b"&quot;").replace(b"\0", "�".encode())
+    if p["kind"] == "CodeInline" and case.tag.startswith("spanlazy"):
+        # whether the blanks that start a continuation line belong to the payload depends on the container (kept at top
+        # level, cut on a lazy line): compared with runs of spaces collapsed
+        spans = [n for n in nodes if n.kind == "CodeInline"]
+        sq = lambda b: re.sub(rb" +", b" ", b)
+        if len(spans) != 1 or len(spans[0].children) != 1 or sq(text_arg(spans[0].children[0])) != sq(want):
+            got = [text_arg(c) for s in spans for c in s.children]
+            return "code span content %r differs from the payload %r" % (got[:2], want[:60])
+        return None
     if p["kind"] == "CodeInline":
         spans = [n for n in nodes if n.kind == "CodeInline"]
         if len(spans) != 1 or len(spans[0].children) != 1 or text_arg(spans[0].children[0]) != want:
